@@ -67,7 +67,10 @@ def discharge(ob, timeout_ms=20000, seed=0, both=False):
         r = s.check()
         dt = time.time() - t0
         if r == z3.sat:
-            return {'status': 'proved', 'backend': 'z3', 'time': dt, 'detail': 'cover sat'}
+            out = {'status': 'proved', 'backend': 'z3', 'time': dt, 'detail': 'cover sat'}
+            if ob.kind == 'xcheck':
+                out['model'] = small_model(ob, s)
+            return out
         if r == z3.unsat:
             return {'status': 'vacuous', 'backend': 'z3', 'time': dt}
         s0 = _solver(timeout_ms, seed)
@@ -247,7 +250,11 @@ def model_value(model, v, heap, memo=None):
 
 
 def eval_term(model, t, kind):
-    if kind == 'int' or (isinstance(kind, tuple) and kind[0] == 'opq'):
+    if isinstance(kind, tuple) and kind[0] == 'opq':
+        r = model.eval(t, model_completion=True)
+        # an opaque object identity: rebuilt natively as a unique (truthy, hashable) token per id
+        return {'__opq__': [str(kind[1]), r.as_long() if z3.is_int_value(r) else 0]}
+    if kind == 'int':
         r = model.eval(t, model_completion=True)
         return r.as_long() if z3.is_int_value(r) else 0
     if kind == 'bool':
